@@ -126,11 +126,28 @@ func (h *Hist) actInject(check func(h *Hist, inj *injected)) func() {
 		chain := rapid.SampledFrom(h.Cfg.Chains).Draw(t, "ichain")
 		key := hex.EncodeToString(sim.KeyFromName("inj" + fromName).PubKey().SerializeCompressed())
 		payload := buildMessage(t, typ, id, scid, chain, key)
+		badContent := rapid.IntRange(0, 3).Draw(t, "badContent") == 0
+		if badContent {
+			// well-formed JSON of the right type whose content fails the message's own validation
+			// (wrong-length or non-hex key / txid): still only acceptable in the states that wait for it
+			var x map[string]interface{}
+			if json.Unmarshal(payload, &x) == nil {
+				for _, f := range []string{"pubkey", "privkey", "tx_id"} {
+					if _, ok := x[f]; ok {
+						x[f] = rapid.SampledFrom([]string{"abcd", "zz", ""}).Draw(t, "badValue")
+					}
+				}
+				payload, _ = json.Marshal(x)
+			}
+		}
 		inj := &injected{Target: target, FromId: from.Id, FromName: fromName, Type: typ, SwapId: id, Payload: payload, IdClass: idc,
 			Before: snapshotRecords(target), ActiveBefore: target.Svc.VerifActiveSwapIds(), SentBefore: len(h.W.Sent)}
 		sort.Strings(inj.ActiveBefore)
 		crashed, err := target.Deliver(from.Id, typ, payload)
-		h.opf("inject(from=%s,type=%d,id=%s:%s,scid=%s,%s) err=%v", fromName, typ, idc, id[:6], scid, chain, err != nil)
+		h.opf("inject(from=%s,type=%d,id=%s:%s,scid=%s,%s,bad=%v) err=%v", fromName, typ, idc, id[:6], scid, chain, badContent, err != nil)
+		if badContent {
+			h.class(fmt.Sprintf("inject-bad-content:%s:%s", fromName, idc))
+		}
 		h.class(fmt.Sprintf("inject:%s:%s", fromName, idc))
 		if crashed {
 			h.handleCrash(target, crashed)
